@@ -37,6 +37,13 @@ HasLink == cfg.lv
 Running == [kind |-> "running"]
 TPos    == IF cfg.t < 0 THEN cfg.t + cfg.L ELSE cfg.t
 
+(* cfg may carry sst0 / sit0 (status / iterations of every submodel at t on entry); defaults '-' / -1 *)
+Start(c) == [cfg |-> c, pc |-> "construct", k |-> 0, lval |-> c.l0, sval |-> c.v0, pv |-> <<>>, cv |-> <<>>, pend |-> "-",
+             lst |-> "-", lit |-> -1, sst |-> [i \in 1..c.n |-> "-"], sit |-> [i \in 1..c.n |-> -1], npass |-> [i \in 1..c.n |-> 0],
+             order |-> <<>>, hist |-> <<>>, nB |-> 0, nA |-> 0, res |-> Running]
+SetVars(s) == /\ cfg' = s.cfg /\ pc' = s.pc /\ k' = s.k /\ lval' = s.lval /\ sval' = s.sval /\ pv' = s.pv /\ cv' = s.cv
+              /\ pend' = s.pend /\ lst' = s.lst /\ lit' = s.lit /\ sst' = s.sst /\ sit' = s.sit /\ npass' = s.npass
+              /\ order' = s.order /\ hist' = s.hist /\ nB' = s.nB /\ nA' = s.nA /\ res' = s.res
 InitWith(c) ==
   /\ cfg = c /\ pc = "construct" /\ k = 0 /\ lval = c.l0 /\ sval = c.v0
   /\ pv = <<>> /\ cv = <<>> /\ pend = "-" /\ lst = "-" /\ lit = -1
@@ -110,14 +117,15 @@ Iterate(o) ==
   /\ pc' = "judge"
   /\ UNCHANGED <<cfg, pv, pend, lst, lit, sst, nB, nA, res>>
 
-(* linkers.py:494-510 (with |d| < tol) *)
-Judge ==
+(* linkers.py:494-510 (with |d| < tol); `below` = every check variable moved by less than tol *)
+JudgeWith(below) ==
   /\ pc = "judge"
   /\ IF k < cfg.min THEN pc' = "loop" /\ UNCHANGED <<pend, nA>>
-     ELSE IF \A i \in 1..Len(cv) : Abs(cv[i] - pv[i]) < cfg.tol
+     ELSE IF below
             THEN pend' = "." /\ nA' = nA + 1 /\ pc' = "stamp"
             ELSE pc' = "loop" /\ UNCHANGED <<pend, nA>>
   /\ UNCHANGED <<cfg, k, lval, sval, pv, cv, lst, lit, sst, sit, npass, order, hist, nB, res>>
+Judge == JudgeWith(\A i \in 1..Len(cv) : Abs(cv[i] - pv[i]) < cfg.tol)
 
 (* linkers.py:515-520 *)
 Stamp ==
